@@ -17,6 +17,8 @@ def run(chk):
     chk.configs = cfgs
     chk.rule("INT64.product", "no multiplication whose result type is a signed 64-bit integer (Distance, Length, Area, the distance measures of "
              "SimplifyPath / RDP on Path64 widen each coordinate difference to double before squaring)")
+    chk.rule("ELLIPSE.radii", "Ellipse's guards, for every sign pattern of the radii: non-positive radiusX -> empty path; otherwise the parametrisation runs with "
+             "radiusX and a positive radiusY (radiusX when zero or negative was given)")
     chk.rule("TAIL.loop", "StripDuplicates / StripNearEqual: every pop_back() of a trailing point sits in a loop whose condition compares the last point with the first - the "
              "loop exit is the postcondition 'a closed path does not end on its start'")
     chk.rule("RDP.spans", "RDP examines the sub-spans (begin, idx) and (idx, end) exactly when they have an interior vertex (guards interpreted for sub-span lengths "
@@ -52,6 +54,7 @@ def run(chk):
         e11.rule_trim_last_kept(db, chk, cfg)
         e11.rule_eps_threshold(db, chk, cfg)
         e11.rule_tail_loop(db, chk, cfg)
+        e11.rule_ellipse_radii(db, chk, cfg)
         from ..engines import e9_safety as e9
         e9.rule_int64_product(db, chk, cfg)      # Length / Distance / Area on Path64: products of coordinate differences are formed in double
         e11.rule_rdp_spans(db, chk, cfg)
